@@ -109,6 +109,10 @@ func Load(cfg LoadCfg) (*Prog, error) {
 	)
 	// go/packages resolves "go" through this process's PATH
 	os.Setenv("PATH", goBinDir+":"+strings.TrimPrefix(os.Getenv("PATH"), goBinDir+":"))
+	if len(cfg.Overlay) > 0 {
+		// mutant loads replace each other: drop descriptions of dead programs
+		descCache = map[ssa.Value]string{}
+	}
 	fset := token.NewFileSet()
 	pcfg := &packages.Config{
 		Mode: packages.NeedName | packages.NeedFiles | packages.NeedCompiledGoFiles | packages.NeedImports |
